@@ -17,6 +17,7 @@ import (
 	"runtime"
 	"runtime/debug"
 	"syscall"
+	"strconv"
 	"strings"
 
 	"verif/harness/gen"
@@ -29,7 +30,7 @@ func main() {
 	out := flag.String("out", "", "output dir")
 	replay := flag.String("replay", "", "replay file")
 	flag.Parse()
-	conc := *comp == "funnelconc" || *comp == "funnelshared"
+	conc := *comp == "funnelconc" || *comp == "funnelshared" || *comp == "funnelstop"
 	// Deterministic fan-out: one P, no asynchronous preemption, no GC cycles (see fanState).
 	if !conc && !strings.Contains(os.Getenv("GODEBUG"), "asyncpreemptoff=1") {
 		env := append(os.Environ(), "GODEBUG=asyncpreemptoff=1")
@@ -90,7 +91,16 @@ func main() {
 		return
 	}
 	for i := 0; i < *n; i++ {
-		c := genCase(r, o, conc)
+		c := genCase(r, o, conc && *comp != "funnelstop")
+		if *comp == "funnelstop" {
+			// more batches, a stop somewhere in the run
+			for len(c.batches) < 4 {
+				n := len(c.batches)*20 + 1
+				c.batches = append(c.batches, []rec{{tag: n, pos: pos{kind: 'k', k: n}}, {tag: n + 1, pos: pos{kind: 'k', k: n + 1}}})
+			}
+			c.stopAt = r.Range(1, 14)
+			o.Count("stop-at=" + strconv.Itoa(c.stopAt))
+		}
 		cs := r.U64()
 		line, res, nt := runCase(c, gen.New(cs), o, conc)
 		for try := 0; try < 8 && res == "skipped"; try++ {
